@@ -505,7 +505,7 @@ def rand_pcache_case(rng):
         m = b - a
     xa = rng.randint(0, m - 2)
     xb = rng.randint(xa + 1, m)
-    style = rng.choice(["kwarg-chain", "kwarg-chain", "kwarg-chain", "location-parent"])
+    style = rng.choice(["kwarg-chain"] * 8 + ["location-parent"] * 3 + ["big-sequence"])
     return {"kind": "pcache", "style": style, "n": n, "levels": levels, "x": [[xa, xb]], "xstrand": rng.choice("+-"),
             "cut": rng.randint(1, depth - 1), "order": rng.choice(["deep-first", "shallow-first"]),
             "between": rng.choice(["nothing", "nothing", "evict-storm", "cache-clear"]), "ask_first": rng.random() < 0.5,
@@ -575,6 +575,26 @@ def run_pcache(case, ctx):
     style = case["style"]
     ctx.note(("pcache", style, depth, cut, case["order"], case["between"], case["ask_first"], tuple(st for _, st in case["levels"]), case["xstrand"]),
              nontrivial=True, klass="pcache-" + style)
+    if style == "big-sequence":
+        # two chromosome-sized sequences with the same id, length and ends that differ in one base in the middle, wrapped in Parents
+        # in one process (either order): each Parent holds ITS sequence
+        from inscripta.biocantor.sequence import Alphabet, Sequence
+
+        n = (1 << 20) + 5 + case["cut"]
+        unit = "ACGTTGCAAC"
+        a = (unit * (n // len(unit) + 1))[:n]
+        mid = n // 2
+        bseq = a[:mid] + ("C" if a[mid] != "C" else "G") + a[mid + 1:]
+        data = {"first": a, "second": bseq} if case["order"] == "deep-first" else {"first": bseq, "second": a}
+        got = {}
+        for k2 in ("first", "second"):
+            par = Parent(id="chrBig" + case["tag"], sequence=Sequence(data[k2], Alphabet.NT_STRICT, id="chrBig" + case["tag"], type="chromosome"))
+            got[k2] = str(par.sequence)[mid]
+            if k2 == "first":
+                _pcache_between(ctx, case)
+        want = {k2: data[k2][mid] for k2 in data}
+        ctx.check("hist.parent-cache", got == want, key=("big-sequence", case["order"], case["between"]), style=style, got=got, want=want, length=n)
+        return
     if style == "location-parent":
         types = ["assembly", "chromosome"]
         want = {False: {"has:assembly": False, "has:chromosome": True}, True: {"has:assembly": True, "has:chromosome": True}}
